@@ -384,6 +384,42 @@ def reads_case(case, res, spec, r):
             except Exception as e:
                 res.violation("read|adjacent reads not contiguous", f"{type(e).__name__}: {e}", case, sub)
             res.hits["adjacent reads join"] += 1
+    # offset / n given as NumPy integer scalars of several widths denote the same request (no wrap-around)
+    import itertools as _it
+    for o, n in ((3, 5), (min(L - 10, 17000), 10), (min(L, 16000), 20000), (10, 250), (L - 2, 2), (L - 1, 2)):
+        if o < 0:
+            continue
+        valid = o + n <= L
+        for ot, nt in ((np.int16, np.int16), (np.uint8, np.uint8), (np.int32, np.int64), (np.uint16, np.int8), (np.int64, np.uint32)):
+            try:
+                oo, nn = ot(o), nt(n)
+            except OverflowError:
+                continue
+            if int(oo) != o or int(nn) != n:
+                continue
+            for form in ("eager", "dask"):
+                sub = {"offset": f"{ot.__name__}({o})", "n": f"{nt.__name__}({n})", "form": form}
+                try:
+                    z = r.read(oo, nn) if form == "eager" else r.read(oo, nn, use_dask=True)
+                    if form == "dask":
+                        z = z.compute()
+                    exc = None
+                except Exception as e:
+                    z, exc = None, e
+                res.transitions += 1
+                if not valid:
+                    if exc is None:
+                        res.violation("read|numpy integer|out of range accepted", f"read({sub['offset']}, {sub['n']}) with len {L} returned "
+                                      f"{len(z)} samples", case, sub)
+                    continue
+                if exc is not None:
+                    res.violation("read|numpy integer|raised", f"read({sub['offset']}, {sub['n']}): {type(exc).__name__}: {exc}", case, sub)
+                    continue
+                ref = r.read(o, n)
+                if len(z) != n or not np.array_equal(np.asarray(z.data), np.asarray(ref.data)) or \
+                        abs(T(z.start_time) - T(ref.start_time)) > 0:
+                    res.violation("read|numpy integer|differs", f"read({sub['offset']}, {sub['n']}) differs from read({o}, {n})", case, sub)
+        res.hits["numpy integer offsets"] += 1
     # chunks= argument
     n = min(8, L)
     zc = r.read(0, n, use_dask=True, chunks=(-1,) + (1,) * (len(r.shape) - 1))
@@ -391,6 +427,27 @@ def reads_case(case, res, spec, r):
     if not isinstance(zc.data, da.Array) or not np.array_equal(zc.data.compute(), r.read(0, n).data):
         res.violation("read|dask chunks", "read(use_dask=True, chunks=...) differs from the eager read", case, None)
     res.sample({"reader": spec.name, "offsets": offs, "n": ns}, 1)
+
+
+def mask_alias_check(res, case):
+    """A per-channel sideband mask passed as an ndarray and later modified by the caller must not change the reader."""
+    m = np.array([False, True])
+    r = pb.readers.BasebandReader(DATA + "sample.dada", lower_sideband=m)
+    a = np.array(r.read(4, 6).data)
+    d = r.read(4, 6, use_dask=True)
+    m[:] = [True, False]
+    b_ = np.array(r.read(4, 6).data)
+    res.transitions += 3
+    if not np.array_equal(a, b_) or not np.array_equal(d.data.compute(), a):
+        res.violation("history|caller's mask array aliased", "after the caller modified the mask array it had passed, the same read "
+                      "returns different data", case, None)
+    lst = [False, True]
+    r2 = pb.readers.BasebandReader(DATA + "sample.dada", lower_sideband=lst)
+    a2 = np.array(r2.read(4, 6).data)
+    lst[0] = True
+    if not np.array_equal(a2, np.array(r2.read(4, 6).data)) or not np.array_equal(a2, a):
+        res.violation("history|caller's mask list aliased", "reader follows later changes of the list passed as lower_sideband", case, None)
+    res.hits["mask argument modified by the caller afterwards"] += 1
 
 
 def history_alphabet(spec, L):
@@ -441,6 +498,8 @@ def history_case(case, res, spec, r):
                     break
             if len(set(seq)) < len(seq):
                 res.hits["same read repeated in a history"] += 1
+    if spec.name == "dada-complex-mask" and case.get("first", 0) == 0:
+        mask_alias_check(res, case)
     res.sample({"reader": spec.name, "alphabet": alpha, "depth": depth}, 1)
 
 
@@ -611,7 +670,7 @@ def main(argv=None):
     return report.run_check(
         PID, gen_cases=gen_cases, check_case=check_case, describe=describe,
         required_hits=["out-of-range time rejected", "out-of-range read rejected", "adjacent reads join", "known payload verified",
-                       "same read repeated in a history", "schedules explored", "schedules with a preemption",
+                       "same read repeated in a history", "numpy integer offsets", "mask argument modified by the caller afterwards", "schedules explored", "schedules with a preemption",
                        "two readers in one graph", "free-running pass"],
         assumptions=["thread interleavings are explored at Python-line granularity inside pulsarbat/readers/*.py and utils.py; code in "
                      "baseband/numpy runs atomically between two such lines; real parallelism inside C code is not modelled",
